@@ -47,7 +47,9 @@ func FindCompactions(fn *ssa.Function) []*Compaction {
 				if !ok || src.X != dst.X {
 					return false
 				}
-				p := headerPhi(src.Index)
+				// the read index: a header phi, or the range form phi+1
+				base, _ := linOff(src.Index)
+				p := headerPhi(base)
 				if p != nil && p != j && p.Block() == j.Block() {
 					iPhi = p
 					return true
@@ -114,7 +116,11 @@ func lags(j *ssa.Phi) bool {
 		}
 		return false
 	}
-	for _, e := range j.Edges {
+	for i, e := range j.Edges {
+		// a way round the loop that leaves j as it is (i advances, j does not)
+		if e == ssa.Value(j) && j.Block().Dominates(j.Block().Preds[i]) {
+			return true
+		}
 		if rec(e) {
 			return true
 		}
